@@ -12,6 +12,7 @@ GEN  : the real DataQuerent evaluates the same expressions (prefixed with the '@
        select exactly the subsets Python slicing selects
 """
 import json
+import os
 
 from .. import tlc, fm94, catalogue, tree, pyb
 from ..common import workdir, rm_workdir, seed, MachineryError
@@ -29,6 +30,7 @@ REPEATS = [[12001, 2001, 12001, 12001, 2001],
            [206012, 12101, 12101, 2001], [1001, 206007, 1001, 12001, 1001]]
 
 
+_WORKER_QUERENT = {}
 MALFORMED = ['@[0]', '/001001[1:', '[0:x]', '@[1].001001', '/001001[0:2/001002', '@[-1', '/012001[2:5:']
 
 
@@ -65,7 +67,9 @@ def check_record(rec):
         pass
     subs = fm94.subsets_of(beh)
     nq = 0
-    querent = DataQuerent(NodePathParser())
+    # ONE querent per worker process for every record it replays: the same path strings meet messages of different subset counts,
+    # templates and storage forms on it (a querent that remembers what a path selected in an earlier message answers wrongly here)
+    querent = _WORKER_QUERENT.setdefault(os.getpid(), DataQuerent(NodePathParser()))
     for how, msg in msgs:
         for s, ents in enumerate(subs):
             ti = 0 if beh['cmp'] else s
@@ -115,7 +119,7 @@ def check_record(rec):
                     out.append((('query', 'bare-id', 'differs', how), 'bare id %s in subset %d: %r, flat positions %r' % (b['id'], s, got, b['at']), b['id']))
         # the same path over ALL subsets at once (no selector) and over the subsets in reverse order: one result per
         # subset, each the specification's evaluation of the path on THAT subset's tree
-        if beh['nsub'] >= 2:
+        if beh['nsub'] >= 1:
             seen = set()
             for ti, qs in enumerate(rec['queries']):
                 for q in qs:
@@ -123,7 +127,7 @@ def check_record(rec):
                     if ps in seen:
                         continue
                     seen.add(ps)
-                    per = q['every'] if not beh['cmp'] else [q['result']] * beh['nsub']
+                    per = q['every'] if (not beh['cmp'] and beh['nsub'] > 1) else [q['result']] * beh['nsub']
                     if any(tree.has_error(r) for r in per):
                         continue
                     for prefix, order in (('', list(range(beh['nsub']))), ('@[::-1]', list(range(beh['nsub'] - 1, -1, -1)))):
